@@ -20,7 +20,11 @@ for id in "${ids[@]}"; do
   extra=""
   case $id in
     C05b|C05c) export VERIF_VDENSE=region/compressor.go,region/multi.go,hrpc/mutate.go,hrpc/get.go,hrpc/scan.go; extra=" (statement-dense build)";;
+    C02h) export VERIF_VDENSE=region/client.go,region/multi.go; extra=" (statement-dense build)";;
     *) unset VERIF_VDENSE;;
+  esac
+  case $id in
+    C08f) prof=c06; extra=" (C08 leg over the scan workload)";;
   esac
   unset RACE RACECTL
   case $id in
